@@ -7,6 +7,7 @@ import (
 	"fmt"
 	"go/ast"
 	"go/parser"
+	"go/printer"
 	"go/token"
 	"math/big"
 	"os"
@@ -362,6 +363,106 @@ func leanStrList(xs []string) string {
 	return "[" + strings.Join(q, ", ") + "]"
 }
 
+
+// ---- command-line tools: the predefined-topics pipeline and the plaintext-credentials guard
+
+func nodeText(fset *token.FileSet, n ast.Node) string {
+	var b strings.Builder
+	printer.Fprint(&b, fset, n)
+	return strings.Join(strings.Fields(b.String()), " ")
+}
+
+// cliFacts walks handleAction's closure: for every statement that (a) calls into package topics,
+// (b) calls .Merge / .GetTopicID, or (c) assigns to predefinedTopics, it records the chain of
+// enclosing if-conditions and the statement; for every `return` of an error mentioning
+// "insecure" it records the chain of enclosing if-conditions.
+func cliFacts(dir string) (pipeline []string, guard []string) {
+	fset := token.NewFileSet()
+	f, err := parser.ParseFile(fset, filepath.Join(dir, "actions.go"), nil, 0)
+	if err != nil {
+		return []string{"PARSE-ERROR"}, []string{"PARSE-ERROR"}
+	}
+	interesting := func(n ast.Node) (bool, bool) {
+		pipe, grd := false, false
+		ast.Inspect(n, func(x ast.Node) bool {
+			switch v := x.(type) {
+			case *ast.CallExpr:
+				if sel, ok := v.Fun.(*ast.SelectorExpr); ok {
+					if id, ok := sel.X.(*ast.Ident); ok && id.Name == "topics" {
+						pipe = true
+					}
+					if sel.Sel.Name == "Merge" || sel.Sel.Name == "GetTopicID" {
+						pipe = true
+					}
+				}
+			case *ast.BasicLit:
+				if v.Kind == token.STRING && strings.Contains(strings.ToLower(v.Value), "insecure") && strings.Contains(strings.ToLower(v.Value), "plain") {
+					grd = true
+				}
+			}
+			return true
+		})
+		return pipe, grd
+	}
+	var walk func(stmts []ast.Stmt, conds []string)
+	walkStmt := func(st ast.Stmt, conds []string) {}
+	walkStmt = func(st ast.Stmt, conds []string) {
+		switch v := st.(type) {
+		case *ast.BlockStmt:
+			walk(v.List, conds)
+		case *ast.IfStmt:
+			c := nodeText(fset, v.Cond)
+			if v.Init != nil {
+				pipe, _ := interesting(v.Init)
+				if pipe {
+					pipeline = append(pipeline, strings.Join(conds, " && ")+" :: "+nodeText(fset, v.Init))
+				}
+			}
+			walk(v.Body.List, append(append([]string{}, conds...), c))
+			if v.Else != nil {
+				walkStmt(v.Else, append(append([]string{}, conds...), "!("+c+")"))
+			}
+		case *ast.ForStmt:
+			walk(v.Body.List, append(append([]string{}, conds...), "for"))
+		case *ast.RangeStmt:
+			walk(v.Body.List, append(append([]string{}, conds...), "range "+nodeText(fset, v.X)))
+		case *ast.ReturnStmt:
+			_, grd := interesting(v)
+			if grd {
+				guard = append(guard, strings.Join(conds, " && "))
+			}
+		default:
+			pipe, _ := interesting(st)
+			if as, ok := st.(*ast.AssignStmt); ok {
+				for _, l := range as.Lhs {
+					if id, ok := l.(*ast.Ident); ok && id.Name == "predefinedTopics" {
+						pipe = true
+					}
+				}
+			}
+			if pipe {
+				pipeline = append(pipeline, strings.Join(conds, " && ")+" :: "+nodeText(fset, st))
+			}
+		}
+	}
+	walk = func(stmts []ast.Stmt, conds []string) {
+		for _, st := range stmts {
+			walkStmt(st, conds)
+		}
+	}
+	ast.Inspect(f, func(n ast.Node) bool {
+		if fl, ok := n.(*ast.FuncLit); ok {
+			// the action closure: func(c *cli.Context) error
+			if fl.Type.Params != nil && len(fl.Type.Params.List) == 1 && strings.Contains(nodeText(fset, fl.Type.Params.List[0].Type), "cli.Context") {
+				walk(fl.Body.List, nil)
+				return false
+			}
+		}
+		return true
+	})
+	return
+}
+
 func main() {
 	if len(os.Args) != 3 {
 		fmt.Fprintln(os.Stderr, "usage: factgen <repo> <out.lean>")
@@ -436,6 +537,14 @@ func main() {
 	fmt.Fprintf(&sb, "def lockFacts_TransactionStore : List (String × String × Bool) := %s\n", lockFacts(filesTx, "TransactionStore"))
 	fmt.Fprintf(&sb, "def lockFacts_TransactionBase : List (String × String × Bool) := %s\n", lockFacts(filesTx, "TransactionBase"))
 	fmt.Fprintf(&sb, "def lockFacts_RetryTransaction : List (String × String × Bool) := %s\n", lockFacts(filesTx, "RetryTransaction"))
+
+	sb.WriteString("\n-- cmd/: predefined-topics pipeline and plaintext-credentials guard of each tool\n")
+	for _, tool := range []string{"bisquitt", "bisquitt-pub", "bisquitt-sub"} {
+		pipe, grd := cliFacts(filepath.Join(repo, "cmd", tool))
+		name := strings.ReplaceAll(tool, "-", "_")
+		fmt.Fprintf(&sb, "def cliPipeline_%s : List String := %s\n", name, leanStrList(pipe))
+		fmt.Fprintf(&sb, "def cliGuard_%s : List String := %s\n", name, leanStrList(grd))
+	}
 
 	sb.WriteString("\n/-- rewrites `c.toNat` to its literal for every extracted UInt8/UInt16 constant -/\n")
 	sb.WriteString("macro \"gen_norm\" : tactic => `(tactic| simp only [\n  " + strings.Join(toNatLemmas, ",\n  ") + "] at *)\n")
